@@ -119,4 +119,110 @@ theorem ratio_loop_run_regenerated (toks : List Tok) (st : RS) :
 
 theorem ratio_loop_start : absR {} = {} := rfl
 
+-- ====================================================================== round 6: behind the loop of ubig!/ibig!
+
+/-- **the code of `parse_integer_with_error` behind the token loop is the regenerated one**: the hand model
+    `intFinishNew` = the regenerated `int_finish` on the code's variables, with the run-time parsers the model
+    uses (`parseU32` = `str::parse::<u32>`, `ubigRadixOpt` = `UBig::from_str_radix`, `ubigPrefixOpt · 10` =
+    `UBig::from_str_with_radix_prefix`), for every state -/
+theorem int_finish_regenerated (st : IS) :
+    intFinishNew st = int_finish parseU32 ubigRadixOpt (fun s => ubigPrefixOpt s 10) (absI st) := by
+  obtain ⟨sign, val, baseMarked, base⟩ := st
+  cases val <;> cases base <;> cases baseMarked <;> simp [intFinishNew, int_finish, absI] <;> rfl
+
+/-- the whole function: `intNew` (what the driver runs, what the grammar theorems of Props/C20 are about) is
+    the regenerated loop from the regenerated start state followed by the regenerated finish -/
+theorem int_parse_regenerated (signed : Bool) (toks : List Tok) :
+    intNew signed toks =
+      (intGenLoop signed {} toks).bind (int_finish parseU32 ubigRadixOpt (fun s => ubigPrefixOpt s 10)) := by
+  unfold intNew
+  rw [← int_loop_start, ← int_loop_run_regenerated]
+  cases intLoopNew signed {} toks with
+  | none => rfl
+  | some st => simp [int_finish_regenerated]
+
+/-- the radix parser of the model accepts exactly what fits the regenerated integer width -/
+theorem int_finish_radix_width (b : Bytes) (r : Nat) (h : parseU32 b = some r) : r < 2 ^ int_finish_radix_bits := by
+  have aux : ∀ body : Bytes, (if body.isEmpty then none
+      else if body.all (fun c => 48 ≤ c && c ≤ 57) then
+        (let m : Nat := body.foldl (fun a c => a * 10 + (c - 48)) 0
+         if m < 2 ^ 32 then some m else none)
+      else none) = some r → r < 2 ^ 32 := by
+    intro body hb
+    by_cases h1 : body.isEmpty = true
+    · simp [h1] at hb
+    · by_cases h2 : body.all (fun c => 48 ≤ c && c ≤ 57) = true
+      · simp only [h1, h2, if_true, Bool.false_eq_true, if_false] at hb
+        by_cases h3 : body.foldl (fun a c => a * 10 + (c - 48)) 0 < 2 ^ 32
+        · simp only [h3, if_true, Option.some.injEq] at hb; omega
+        · simp [h3] at hb
+      · simp [h1, h2] at hb
+  unfold parseU32 at h
+  exact aux _ h
+
+-- ====================================================================== round 6: behind the loop of rbig!
+
+/-- `RBig::from_parts_signed(num, den)` / `Relaxed::from_parts_signed` by value: zero denominator panics
+    (`none`), the sign of the denominator moves to the numerator, then the reduction of the type -/
+def fromPartsSigned (red : Int → Nat → QVal) (n d : Int) : Option QVal :=
+  if d = 0 then none else some (red (if d < 0 then -n else n) d.natAbs)
+
+theorem signed_parts (nn dn : Bool) (n d : Nat) (hd : d ≠ 0) (red : Int → Nat → QVal) :
+    fromPartsSigned red ((if nn then -1 else 1) * (n : Int)) ((if dn then -1 else 1) * (d : Int)) =
+      some (red (signedVal (nn != dn) n) d) := by
+  have hd' : (0 : Int) < d := by omega
+  unfold fromPartsSigned signedVal
+  have h1 : ¬ ((d : Int) < 0) := by omega
+  have h2 : 0 < d := by omega
+  cases nn <;> cases dn <;> simp [hd, h1, h2]
+
+theorem signed_parts_zero (nn dn : Bool) (n : Nat) (red : Int → Nat → QVal) :
+    fromPartsSigned red ((if nn then -1 else 1) * (n : Int)) ((if dn then -1 else 1) * ((0 : Nat) : Int)) = none := by
+  unfold fromPartsSigned; simp
+
+theorem finish_tail (rel nn dn : Bool) (p : Nat × Nat) :
+    ((if rel then fromPartsSigned qreduce2 ((if nn then -1 else 1) * (p.1 : Int)) ((if dn then -1 else 1) * (p.2 : Int))
+      else fromPartsSigned qreduce ((if nn then -1 else 1) * (p.1 : Int)) ((if dn then -1 else 1) * (p.2 : Int))).map
+        fun q => (q, rel)) =
+    if p.2 = 0 then none
+    else some (if rel then qreduce2 (signedVal (nn != dn) p.1) p.2 else qreduce (signedVal (nn != dn) p.1) p.2, rel) := by
+  obtain ⟨n, d⟩ := p
+  by_cases hd : d = 0
+  · subst hd; simp only [signed_parts_zero]; cases rel <;> simp
+  · simp only [signed_parts _ _ _ _ hd, hd, if_false]; cases rel <;> simp
+
+/-- **the code of `parse_ratio_with_error` behind the token loop is the regenerated one**: the hand model
+    `ratFinishNew` = the regenerated `ratio_finish` on the code's variables, with the run-time parsers of the
+    model and `from_parts_signed` by value, for every state -/
+theorem ratio_finish_regenerated (st : RS) :
+    ratFinishNew st =
+      ratio_finish parseU32 ubigRadixOpt (fun s => ubigPrefixOpt s 10) ubigPrefixOpt
+        (fromPartsSigned qreduce2) (fromPartsSigned qreduce) (absR st) := by
+  obtain ⟨rel, nSign, nVal, marked, dSign, dVal, baseMarked, base⟩ := st
+  cases nVal with
+  | none => simp [ratFinishNew, ratio_finish, absR]
+  | some nt =>
+    unfold ratio_finish
+    simp only [finish_tail]
+    cases dVal <;> cases base <;> cases baseMarked <;> cases marked <;>
+      simp [ratFinishNew, absR, optSign]
+    all_goals first | rfl | (congr 1; funext x; obtain ⟨a, b⟩ := x; rfl)
+
+/-- the whole function: `ratNew` (what the driver runs, what the grammar / value theorems of Props/C20 are about)
+    is the regenerated loop from the regenerated start state followed by the regenerated finish -/
+theorem ratio_parse_regenerated (toks : List Tok) :
+    ratNew toks =
+      (ratGenLoop {} toks).bind (ratio_finish parseU32 ubigRadixOpt (fun s => ubigPrefixOpt s 10) ubigPrefixOpt
+        (fromPartsSigned qreduce2) (fromPartsSigned qreduce)) := by
+  unfold ratNew
+  rw [← ratio_loop_start, ← ratio_loop_run_regenerated]
+  cases ratLoopNew {} toks with
+  | none => rfl
+  | some st => simp [ratio_finish_regenerated]
+
+/-- non-vacuity: the sign of the denominator moves to the numerator, a zero denominator panics -/
+example : fromPartsSigned qreduce (-6) (-4) = some (qreduce 6 4) ∧ fromPartsSigned qreduce2 6 (-4) = some (qreduce2 (-6) 4) ∧
+    fromPartsSigned qreduce 1 0 = none := by
+  refine ⟨?_, ?_, ?_⟩ <;> simp [fromPartsSigned]
+
 end Dashu.Props.C20GenLoop
